@@ -117,6 +117,10 @@ fn main() {
             umverif::c05::run(&mut rep);
             rep.finish()
         }
+        "C07" => {
+            umverif::c07::run(&mut rep);
+            rep.finish()
+        }
         "C08" => {
             umverif::c08::run(&mut rep);
             rep.finish()
